@@ -493,7 +493,7 @@ func (i StaticInspector) Copy(x any) (dst any, err error) {
 }
 
 func (i StaticInspector) CopyTo(src, dst any, buf AccumulativeBuffer) error {
-	if isNilPtr(src) {
+	if isNilPtr(src) || isNilPtr(dst) {
 		return ErrUnsupportedType
 	}
 	switch src.(type) {
